@@ -143,9 +143,11 @@ func main() {
 	res := lib.NewResult("C20", f)
 	maxLen := 5
 	if f.Thorough() {
-		maxLen = 7
+		maxLen = 6
 	}
-	alphabet := [][]byte{[]byte("a"), []byte("\n"), []byte("é")}
+	// a letter, the line feed, a two-byte character (chunks may split it) and the NUL byte (a data
+	// byte like any other: no sentinel value may stand for "nothing written yet")
+	alphabet := [][]byte{[]byte("a"), []byte("\n"), []byte("é"), {0}}
 	// prefixes: one byte, two bytes, a multi-byte character, and prefixes that contain a line feed
 	// themselves (the count returned on a short write must not confuse them with the text's)
 	prefixes := []string{">", ">>", "é", ">\n", "\n> "}
